@@ -352,19 +352,36 @@ def check_cas(run, db):
             if st != frozenset(['false']):
                 probs.append('the expected value of the exchange may be %s when it runs: a stack whose flag is already true (in use by a live thread) '
                              'can be taken' % ', '.join(sorted(st) or ['uninitialised']))
-        # the node is handed out only where the exchange succeeded
-        for s in fwd.summarize(f, db=db, roles={}, no_forward=True):
-            if s.end != 'return' or s.ret in (None, 'null'):
+        # the node is handed out only where the exchange succeeded - decided on plain path traces, which keep the loop conditions
+        # (a cursor returned after the loop ran off the list is null by the loop's own exit condition)
+        try:
+            traces = fwd.trace(f, db=db, roles={})
+        except sym.PathLimit as ex:
+            run.broke(str(ex))
+            traces = []
+        for p in traces:
+            endst = p[-1] if p and p[-1].get('kind') == 'end' else None
+            if endst is None or endst.get('end') != 'return' or endst.get('ret') is None:
                 continue
-            if not any('compare_exchange' in c and tk for c, tk in s.conds):
+            ret_c = sym.canon(endst['ret'], {})
+            if ret_c == 'null':
+                continue
+            conds = []
+            for st in p:
+                if st['kind'] == 'br':
+                    for a, tk in fwd.split_condition(st['cond'], st['taken']):
+                        conds.append((sym.canon(a, {}), tk))
+            if common.nonnull_on_path(conds, ret_c) is False:
+                continue
+            if not any('compare_exchange' in c and tk for c, tk in conds):
                 # a freshly created stack (the result of a function that constructs one, or a new-expression) is not taken from the list
-                rt = sym.strip_casts(s.ret_term) if s.ret_term is not None else {}
+                rt = sym.strip_casts(endst['ret'])
                 fresh = isinstance(rt, dict) and rt.get('k') == 'new'
                 if isinstance(rt, dict) and rt.get('k') == 'call':
                     g = db.fns.get(rt.get('key'))
                     fresh = g is not None and any((top_term(e2) or {}).get('k') == 'new' for e2 in g.events())
                 if not fresh:
-                    probs.append('returns %s on a path where no exchange succeeded' % s.ret[:50])
+                    probs.append('returns %s on a path where no exchange succeeded' % ret_c[:50])
         _emit(run, 'R-TS14.cas', f, db, probs, 'in_use_: false -> true, expected value fresh at every exchange; node returned only on success',
               {'function': strip_ns(f.name), 'role': 'adopt only an unused stack'})
     return n
